@@ -576,6 +576,7 @@ impl<'tcx> Cx<'tcx> {
                         let sig = tcx.fn_sig(did).instantiate_identity().skip_norm_wip().skip_binder();
                         let ins: Vec<String> = sig.inputs().iter().map(|t| js(&self.ty_s(*t))).collect();
                         let _ = write!(extra, ",\"inputs\":{},\"output\":{}", jlist(&ins), js(&self.ty_s(sig.output())));
+                        let _ = write!(extra, ",\"const\":{}", tcx.is_const_fn(did));
                     }
                     let _ = writeln!(
                         out,
